@@ -62,6 +62,7 @@ type Hook struct {
 	When    Expr
 	Assigns []HookStmt
 	Where   string
+	Optional bool
 }
 type HookStmt struct {
 	Kind  string // "assign", "assert", "assume"
@@ -591,6 +592,11 @@ func parseHook(rest, where string) (Hook, error) {
 	fs := strings.Fields(head)
 	if len(fs) < 1 {
 		return h, fmt.Errorf("%s: bad hook head", where)
+	}
+	if fs[0] == "optional" && len(fs) > 1 {
+		// a hook kept for program points the code may or may not contain (not reported when it matches nothing)
+		h.Optional = true
+		fs = fs[1:]
 	}
 	h.Event = fs[0]
 	if len(fs) > 1 {
